@@ -1,66 +1,66 @@
-// REPLAY for property C05, harness k_decompress_fast_bounded (unit K-arms, engine kani)
+// REPLAY for property C08, harness k_decompress_fast_bounded (unit K-arms, engine kani)
 // Failed obligations:
 //   OBL:arms.transfer_pre_destination_in_bounds [C05 C08]  at miniz_oxide/src/inflate/core.rs:3398:9 in function inflate::core::verif_inflate_core::model_transfer
 //   attempt to subtract with overflow  at miniz_oxide/src/inflate/output_buffer.rs:61:9 in function inflate::output_buffer::OutputBuffer::<'_>::bytes_left
 // no-failing-input-found: the verifier reported the failed obligation without a concrete model.
 // Verifier output (tail):
+//   	 - Description: "dereference failure: pointer outside object bounds"
+//   	 - Location: miniz_oxide/src/inflate/core.rs:433:23 in function <inflate::core::State as core::cmp::PartialEq>::eq
+//   
+//   Check 350: <inflate::core::State as core::cmp::PartialEq>::eq.pointer_dereference.6
+//   	 - Status: SUCCESS
 //   	 - Description: "dereference failure: invalid integer address"
 //   	 - Location: miniz_oxide/src/inflate/core.rs:433:23 in function <inflate::core::State as core::cmp::PartialEq>::eq
 //   
-//   Check 350: <inflate::core::State as core::cmp::PartialEq>::eq.pointer_dereference.7
+//   Check 351: <inflate::core::State as core::cmp::PartialEq>::eq.pointer_dereference.7
 //   	 - Status: SUCCESS
 //   	 - Description: "dereference failure: pointer NULL"
 //   	 - Location: miniz_oxide/src/inflate/core.rs:433:23 in function <inflate::core::State as core::cmp::PartialEq>::eq
 //   
-//   Check 351: <inflate::core::State as core::cmp::PartialEq>::eq.pointer_dereference.8
+//   Check 352: <inflate::core::State as core::cmp::PartialEq>::eq.pointer_dereference.8
 //   	 - Status: SUCCESS
 //   	 - Description: "dereference failure: pointer invalid"
 //   	 - Location: miniz_oxide/src/inflate/core.rs:433:23 in function <inflate::core::State as core::cmp::PartialEq>::eq
 //   
-//   Check 352: <inflate::core::State as core::cmp::PartialEq>::eq.pointer_dereference.9
+//   Check 353: <inflate::core::State as core::cmp::PartialEq>::eq.pointer_dereference.9
 //   	 - Status: SUCCESS
 //   	 - Description: "dereference failure: deallocated dynamic object"
 //   	 - Location: miniz_oxide/src/inflate/core.rs:433:23 in function <inflate::core::State as core::cmp::PartialEq>::eq
 //   
-//   Check 353: <inflate::core::State as core::cmp::PartialEq>::eq.pointer_dereference.10
+//   Check 354: <inflate::core::State as core::cmp::PartialEq>::eq.pointer_dereference.10
 //   	 - Status: SUCCESS
 //   	 - Description: "dereference failure: dead object"
 //   	 - Location: miniz_oxide/src/inflate/core.rs:433:23 in function <inflate::core::State as core::cmp::PartialEq>::eq
 //   
-//   Check 354: <inflate::core::State as core::cmp::PartialEq>::eq.pointer_dereference.11
+//   Check 355: <inflate::core::State as core::cmp::PartialEq>::eq.pointer_dereference.11
 //   	 - Status: SUCCESS
 //   	 - Description: "dereference failure: pointer outside object bounds"
 //   	 - Location: miniz_oxide/src/inflate/core.rs:433:23 in function <inflate::core::State as core::cmp::PartialEq>::eq
 //   
-//   Check 355: <inflate::core::State as core::cmp::PartialEq>::eq.pointer_dereference.12
+//   Check 356: <inflate::core::State as core::cmp::PartialEq>::eq.pointer_dereference.12
 //   	 - Status: SUCCESS
 //   	 - Description: "dereference failure: invalid integer address"
 //   	 - Location: miniz_oxide/src/inflate/core.rs:433:23 in function <inflate::core::State as core::cmp::PartialEq>::eq
 //   
-//   Check 356: inflate::core::decompress_fast.unwind.0
+//   Check 357: inflate::core::decompress_fast.unwind.0
 //   	 - Status: SUCCESS
 //   	 - Description: "unwinding assertion loop 0"
 //   	 - Location: miniz_oxide/src/inflate/core.rs:1236:9 in function inflate::core::decompress_fast
 //   
-//   Check 357: inflate::core::decompress_fast.unwind.1
+//   Check 358: inflate::core::decompress_fast.unwind.1
 //   	 - Status: SUCCESS
 //   	 - Description: "unwinding assertion loop 1"
 //   	 - Location: miniz_oxide/src/inflate/core.rs:1236:9 in function inflate::core::decompress_fast
 //   
 //   
 //   SUMMARY:
-//    ** 2 of 355 failed (3 unreachable)
+//    ** 0 of 355 failed (3 unreachable)
 //   
-//    ** 2 of 2 cover properties satisfied
+//    ** 2 of 3 cover properties satisfied (1 unreachable)
 //   
-//   Failed Checks: "OBL:arms.transfer_pre_destination_in_bounds [C05 C08]"
-//    File: "miniz_oxide/src/inflate/core.rs", line 3398, in inflate::core::verif_inflate_core::model_transfer
-//   Failed Checks: attempt to subtract with overflow
-//    File: "miniz_oxide/src/inflate/output_buffer.rs", line 61, in inflate::output_buffer::OutputBuffer::<'_>::bytes_left
 //   
-//   VERIFICATION:- FAILED
-//   Verification Time: 267.57162s
+//   VERIFICATION:- SUCCESSFUL
+//   Verification Time: 154.78445s
 //   
 //   Manual Harness Summary:
-//   Verification failed for - inflate::core::verif_inflate_core::k_decompress_fast_bounded
-//   Complete - 0 successfully verified harnesses, 1 failures, 1 total.
+//   Complete - 1 successfully verified harnesses, 0 failures, 1 total.
